@@ -35,6 +35,8 @@ class Untranslatable(Exception):
     pass
 
 
+TICKS = 1024   # model time unit: 1/1024 s; durations configured in seconds are scaled
+
 CMP = {ast.Gt: '>', ast.GtE: '≥', ast.Lt: '<', ast.LtE: '≤', ast.Eq: '=', ast.NotEq: '≠'}
 ARITH = {ast.Add: '+', ast.Sub: '-', ast.Mult: '*'}
 
@@ -104,16 +106,27 @@ class Tr:
             if isinstance(e.value, (bytes, str)): return 'bytes'
         if isinstance(e, (ast.Compare, ast.BoolOp)): return 'bool'
         if isinstance(e, ast.UnaryOp) and isinstance(e.op, ast.Not): return 'bool'
-        if isinstance(e, ast.BinOp): return self.typ(e.left)
+        if isinstance(e, ast.BinOp):
+            l, r = self.typ(e.left), self.typ(e.right)
+            return 'time' if 'time' in (l, r) else l
         if isinstance(e, ast.UnaryOp) and isinstance(e.op, ast.USub): return 'int'
         if isinstance(e, ast.Call) and isinstance(e.func, ast.Name) and e.func.id in ('len', 'abs', 'int', 'min', 'max'):
             return 'int'
         if isinstance(e, ast.Subscript): return self.typ(e.value)
         return 'other'
 
+    def coerce(self, e, want_time):
+        """seconds -> ticks: an int-typed operand combined with a time-typed one is scaled"""
+        x = self.expr(e)
+        if want_time and self.typ(e) == 'int':
+            return '(%d * %s)' % (TICKS, x)
+        return x
+
     def truth(self, e):
         """Python truthiness of e as a Lean Bool"""
         t = self.typ(e)
+        if t.startswith('truthy:'):
+            return t[len('truthy:'):]
         if isinstance(e, ast.BoolOp):
             op = ' && ' if isinstance(e.op, ast.And) else ' || '
             return '(' + op.join(self.truth(v) for v in e.values) + ')'
@@ -123,7 +136,7 @@ class Tr:
             return self.expr(e)
         x = self.expr(e)
         if t == 'bool': return x
-        if t == 'int': return '(%s != 0)' % x
+        if t in ('int', 'time'): return '(%s != 0)' % x
         if t in ('bytes', 'list'): return '(!(%s).isEmpty)' % x
         if t == 'opt': return '(%s).isSome' % x
         raise Untranslatable('truthiness of %s (%s)' % (ast.unparse(e), t))
@@ -152,7 +165,8 @@ class Tr:
             if type(e.op) in ARITH:
                 if self.typ(e.left) in ('bytes', 'list') and isinstance(e.op, ast.Add):
                     return '(%s ++ %s)' % (self.expr(e.left), self.expr(e.right))
-                return '(%s %s %s)' % (self.expr(e.left), ARITH[type(e.op)], self.expr(e.right))
+                tm = 'time' in (self.typ(e.left), self.typ(e.right)) and not isinstance(e.op, ast.Mult)
+                return '(%s %s %s)' % (self.coerce(e.left, tm), ARITH[type(e.op)], self.coerce(e.right, tm))
             if isinstance(e.op, ast.Mod):
                 return '(Int.emod %s %s)' % (self.expr(e.left), self.expr(e.right))
             if isinstance(e.op, ast.FloorDiv):
@@ -194,7 +208,8 @@ class Tr:
 
     def cmp(self, l, op, r):
         if type(op) in CMP:
-            a, b = self.expr(l), self.expr(r)
+            tm = 'time' in (self.typ(l), self.typ(r))
+            a, b = self.coerce(l, tm), self.coerce(r, tm)
             # Bool-valued comparisons without a proposition-indexed Decidable instance, so that
             # unfolding a generated definition inside an argument never leaves an ill-typed term
             if isinstance(op, ast.Lt): return '(Sv.ilt %s %s)' % (a, b)
@@ -231,15 +246,13 @@ def site_defs(site):
     func = find_func(tree, site.qual)
     tr = Tr(site, func)
     out = []
-    gk = ak = 0
     skel = []
+    entries = []   # (kind 'g'|'a', expr node, lineno, truth?) in source order
     # source order walk
     def visit(stmts, depth):
-        nonlocal gk, ak
         for st in stmts:
             if isinstance(st, (ast.If, ast.While)):
-                ident = '%s_g%d' % (site.name, gk); gk += 1
-                emit(ident, st.test, 'Bool', st.lineno, truth=True)
+                entries.append(('g', st.test, st.lineno))
                 skel.append('%s%s' % ('  ' * depth, type(st).__name__))
                 visit(st.body, depth + 1)
                 if st.orelse:
@@ -249,10 +262,9 @@ def site_defs(site):
                 val = st.value
                 if val is None:
                     skel.append('%sreturn' % ('  ' * depth)); continue
-                ident = '%s_a%d' % (site.name, ak); ak += 1
                 if isinstance(st, ast.AugAssign):
                     val = ast.BinOp(left=st.target, op=st.op, right=st.value)
-                emit(ident, val, None, st.lineno)
+                entries.append(('a', val, st.lineno))
                 skel.append('%s%s' % ('  ' * depth, type(st).__name__))
             elif isinstance(st, ast.Try):
                 skel.append('%stry' % ('  ' * depth))
@@ -271,8 +283,7 @@ def site_defs(site):
             elif isinstance(st, ast.Raise):
                 skel.append('%sraise' % ('  ' * depth))
             elif isinstance(st, ast.Assert):
-                ident = '%s_g%d' % (site.name, gk); gk += 1
-                emit(ident, st.test, 'Bool', st.lineno, truth=True)
+                entries.append(('g', st.test, st.lineno))
                 skel.append('%sassert' % ('  ' * depth))
 
     def emit(ident, e, ty, lineno, truth=False):
@@ -285,7 +296,9 @@ def site_defs(site):
                 body, t = tr.truth(e), 'Bool'
             else:
                 body = tr.expr(e)
-                t = {'int': 'Int', 'bool': 'Bool', 'bytes': 'List UInt8'}.get(tr.typ(e))
+                t = {'int': 'Int', 'time': 'Int', 'bool': 'Bool', 'bytes': 'List UInt8'}.get(tr.typ(e))
+                if t is None and tr.typ(e).startswith('lean:'):
+                    t = tr.typ(e)[5:]
                 if t is None:
                     raise Untranslatable('result type of ' + srctext)
             out.append('-- %s:%d  %s\ndef %s %s : %s := %s' % (site.qual, lineno, srctext, ident, site.params, t, body))
@@ -293,8 +306,43 @@ def site_defs(site):
             out.append('-- %s  %s:%d  UNTRANSLATED (%s)  %s' % (ident, site.qual, lineno, ex, srctext))
 
     visit(func.body, 0)
+    # identifiers: ordinals in source order, re-synchronised against the committed baseline so
+    # that an inserted or deleted statement does not shift the names the model refers to, and
+    # an edited expression keeps its name (the theorems are then re-checked against its new body)
+    texts = [k + ':' + ast.unparse(e).replace('\n', ' ') for k, e, _ in entries]
+    idents = [None] * len(entries)
+    base = BASELINE.get(site.name)
+    if base is None or REBASELINE:
+        gk = ak = 0
+        for i, (k, e, _) in enumerate(entries):
+            if k == 'g':
+                idents[i] = '%s_g%d' % (site.name, gk); gk += 1
+            else:
+                idents[i] = '%s_a%d' % (site.name, ak); ak += 1
+    else:
+        import difflib
+        bt = [t for _, t in base]
+        sm = difflib.SequenceMatcher(a=bt, b=texts, autojunk=False)
+        fresh = 0
+        for tag, i1, i2, j1, j2 in sm.get_opcodes():
+            if tag in ('equal', 'replace'):
+                for d in range(min(i2 - i1, j2 - j1)):
+                    if base[i1 + d][1][0] == texts[j1 + d][0]:
+                        idents[j1 + d] = base[i1 + d][0]
+        for i in range(len(entries)):
+            if idents[i] is None:
+                idents[i] = '%s_new%d' % (site.name, fresh); fresh += 1
+    NEWBASE[site.name] = [[idents[i], texts[i]] for i in range(len(entries))]
+    for i, (k, e, ln) in enumerate(entries):
+        emit(idents[i], e, 'Bool' if k == 'g' else None, ln, truth=(k == 'g'))
     fp = hashlib.sha1('\n'.join(skel).encode()).hexdigest()[:16]
     return out, fp
+
+
+BASELINE = {}
+NEWBASE = {}
+REBASELINE = False
+BASEDIR = os.path.join(HERE, 'baselines')   # one file per generated module
 
 
 def lean_str(s):
@@ -329,11 +377,18 @@ def load_site_modules():
 def main(only=None):
     """returns {'changed': [...files], 'fingerprints': {site: fp}, 'errors': [...]}"""
     res = {'changed': [], 'fingerprints': {}, 'errors': [], 'untranslated': []}
+    global BASELINE
     for mod in load_site_modules():
         modname = mod.__name__.split('.')[-1]
         lean_name = getattr(mod, 'LEAN_MODULE', modname.capitalize())
         if only and lean_name not in only:
             continue
+        basefile = os.path.join(BASEDIR, lean_name + '.json')
+        try:
+            BASELINE = json.load(open(basefile))
+        except OSError:
+            BASELINE = {}
+        NEWBASE.clear()
         lines = ['-- GENERATED by harness/extract.py from /repo -- do not edit; regenerated on every check run']
         for imp in getattr(mod, 'IMPORTS', []):
             lines.append('import ' + imp)
@@ -361,6 +416,10 @@ def main(only=None):
             res['errors'].append('%s: %s: %s' % (modname, type(ex).__name__, ex))
             lines.append('-- EXTRACTION ERROR %s: %s' % (type(ex).__name__, str(ex).replace('\n', ' ')))
         lines.append('end Sv.Gen.' + lean_name)
+        if REBASELINE and NEWBASE:
+            os.makedirs(BASEDIR, exist_ok=True)
+            with open(basefile, 'w') as f:
+                json.dump(NEWBASE, f, indent=0, sort_keys=True)
         path = os.path.normpath(os.path.join(GEN, lean_name + '.lean'))
         if write_if_changed(path, '\n'.join(lines) + '\n'):
             res['changed'].append(path)
@@ -368,6 +427,11 @@ def main(only=None):
 
 
 if __name__ == '__main__':
+    if '--rebaseline' in sys.argv:
+        # records the current statement list of every (selected) site as the reference for identifier
+        # alignment; run by the author after (re)writing a model against the current /repo
+        REBASELINE = True
+        sys.argv.remove('--rebaseline')
     r = main(set(sys.argv[1:]) or None)
     json.dump(r, sys.stdout, indent=1)
     print()
